@@ -29,7 +29,21 @@ def reorder_cr(line):
     return "|".join(out)
 
 
-def run_impl(scripts, fw, nproc=8, env_extra=None, timeout=3000):
+class Nvx:
+    """NVX C sources of /repo compiled into a scratch directory (removed on exit)"""
+
+    def __enter__(self):
+        import tempfile
+        self.dir = Path(tempfile.mkdtemp(prefix="abverif-nvx-"))
+        core.build_nvx(self.dir)
+        return str(self.dir)
+
+    def __exit__(self, *a):
+        import shutil
+        shutil.rmtree(self.dir, ignore_errors=True)
+
+
+def run_impl(scripts, fw, nproc=8, env_extra=None, timeout=3000, nvx_dir=None):
     """-> list of answer lines (one per script) from the real protocol objects of framework `fw`"""
     if not scripts:
         return []
@@ -40,7 +54,11 @@ def run_impl(scripts, fw, nproc=8, env_extra=None, timeout=3000):
         e = dict(os.environ)
         e["PYTHONPATH"] = os.pathsep.join([str(core.REPO / "src"), str(core.VERIF)])
         e["AUTOBAHN_VERIF"] = "1"
-        e.setdefault("AUTOBAHN_USE_NVX", "0")
+        if nvx_dir:
+            e["PYTHONPATH"] = nvx_dir + os.pathsep + e["PYTHONPATH"]
+            e["AUTOBAHN_USE_NVX"] = "1"
+        else:
+            e["AUTOBAHN_USE_NVX"] = "0"
         if env_extra:
             e.update(env_extra)
         p = subprocess.run([core.PY, str(W / "ws_worker.py")], input=json.dumps({"fw": fw, "scripts": part}),
